@@ -215,8 +215,8 @@ def examples_planar(tier):
 
 
 SUBS = [
-    Sub('chain', oracle_chain, strategy=chain_cases, budget={'quick': 8000, 'thorough': 160000}),
+    Sub('chain', oracle_chain, strategy=chain_cases, budget={'quick': 8000, 'thorough': 160000}, fuzz={'thorough': 20000}),
     Sub('fchain', oracle_float_chain, strategy=float_chain_cases, budget={'quick': 3200, 'thorough': 48000}),
     Sub('planar', oracle_planar, strategy=planar_cases, budget={'quick': 8000, 'thorough': 160000},
-        examples=examples_planar),
+        examples=examples_planar, fuzz={'thorough': 20000}),
 ]
